@@ -12,9 +12,11 @@ import time
 
 VERIF = os.path.dirname(os.path.dirname(os.path.abspath(__file__)))
 PY = os.path.join(VERIF, '.venv', 'bin', 'python')
-BUILD = os.path.join(VERIF, 'build', 'gen')
-REPLAYS = os.path.join(VERIF, 'replays')
-EVIDENCE = os.path.join(VERIF, 'evidence')
+ALT_REPO = os.environ.get('VKIT_REPO')       # development aid: analyse another checkout (scratch worktree) instead of /repo
+_TAG = ('alt-' + hashlib.sha1(ALT_REPO.encode()).hexdigest()[:8]) if ALT_REPO else ''
+BUILD = os.path.join(VERIF, 'build', 'gen', _TAG) if _TAG else os.path.join(VERIF, 'build', 'gen')
+REPLAYS = os.path.join(VERIF, 'replays', _TAG) if _TAG else os.path.join(VERIF, 'replays')
+EVIDENCE = os.path.join(VERIF, 'build', 'evidence-' + _TAG) if _TAG else os.path.join(VERIF, 'evidence')
 
 TIER_DEFAULTS = {'quick': {'timeout': 75, 'path_timeout': 20}, 'thorough': {'timeout': 600, 'path_timeout': 60}}
 NCPU = int(os.environ.get('VKIT_JOBS', '0') or 0) or (os.cpu_count() or 4)
@@ -22,7 +24,7 @@ NCPU = int(os.environ.get('VKIT_JOBS', '0') or 0) or (os.cpu_count() or 4)
 
 def env_base():
     e = dict(os.environ)
-    e['PYTHONPATH'] = VERIF
+    e['PYTHONPATH'] = VERIF + ((':' + ALT_REPO) if ALT_REPO else '')
     e['PYTHONDONTWRITEBYTECODE'] = '1'
     e['PYTHONHASHSEED'] = '0'
     return e
